@@ -74,6 +74,8 @@ type Exec struct {
 	stale      map[string][]uint64
 	trigActive int
 	bursts     int
+	slowNode   string        // SlowScoped: the node whose handlers are slow ...
+	slowUntil  time.Duration // ... until this moment
 	// calls issued by the harness that have not returned yet (watchdog, see main)
 	pending   map[int]*pendingCall
 	pendingID int
@@ -140,6 +142,9 @@ func Run(t *testing.T, prop string, seed uint64, tier string, replay *hcommon.Re
 		}
 		if slowP > 0 && strings.HasPrefix(site, "chord/") {
 			if t := simrt.Self(); t != nil && strings.HasPrefix(t.Name, slowPrefix) {
+				if p.Sched.SlowScoped && (ex.slowNode == "" || t.Group != ex.slowNode || simrt.Elapsed() > ex.slowUntil) {
+					return 0
+				}
 				if draw()&0xffffffff < slowP {
 					// a slow request thread, not a lost request: all stalls of one handler together stay well
 					// below the RPC deadline (a handler that answers after its caller's deadline is the
@@ -329,12 +334,14 @@ func (ex *Exec) main() {
 					continue
 				}
 				firedTop[ti] = true
+				ex.slowNode, ex.slowUntil = call.To, simrt.Elapsed()+4*time.Second
 				simrt.Probe("trigger-at-serving-node")
 				ex.trigActive++
 				simrt.GoGroup(fmt.Sprintf("h:trigger%d", ti), "", func() { defer func() { ex.trigActive-- }(); ex.fire(tr, call) })
 				continue
 			}
 			if tr.AtStart && tr.Nth > 0 && tr.OnMethod == call.Method && tr.Nth == seenStart[call.Method] {
+				ex.slowNode, ex.slowUntil = call.To, simrt.Elapsed()+4*time.Second
 				simrt.Probe("trigger-at-start/" + call.Method)
 				ex.trigActive++
 				simrt.GoGroup(fmt.Sprintf("h:trigger%d", ti), "", func() { defer func() { ex.trigActive-- }(); ex.fire(tr, call) })
